@@ -16,6 +16,13 @@ M1 (code->spec)  : the same log is the begin/report/end trace of a recording gun
                    walked through the machine's effects (one sample per request on every path, never more
                    while a shot runs); `-mode ids`: 8 instances x 500 concurrent acquisitions on one
                    provider, ids fresh at every Acquire and their cardinality = acquisitions (TLC).
+Pool part        : SamplePool.tla - life-cycle of the pooled sample objects (Acquire -> fill field by field -> Report ->
+                   aggregator writes the line -> release -> Acquire again; discarded shots), invariant "a sample handed
+                   out by Acquire carries no residue of its previous use in any field that reaches the output",
+                   exhaustive for 2 instances x 3 objects, 4 negative controls; bound by `vdrive samplepool`: TLC-
+                   generated plans (all sequences of shot kinds) through the REAL guns into the REAL phout aggregator
+                   (the one that returns samples to the pool), the written phout file is the observable
+                   (TraceSamplePool.tla).
 """
 import concurrent.futures
 import json
@@ -28,13 +35,17 @@ MANIFEST = dict(
     category="model_checking",
     technique="TLC: explicit TLA+ coding functions + one-sample/id state machine (SampleCoding.tla) checked exhaustively, "
               "complete case space replayed through the real guns/providers against programmable in-process HTTP and gRPC "
-              "targets, recorded begin/report/end traces validated by TraceSampleCoding.tla",
+              "targets, recorded begin/report/end traces validated by TraceSampleCoding.tla; sample-object life-cycle machine "
+              "(SamplePool.tla) checked exhaustively and bound by runs through the real phout aggregator (written file = observable)",
     design_ref="DESIGN.md §4 C10",
     text="Status/errno/tag coding is a finite function (every HTTP status 200-599, every gRPC code, every failure kind, every "
          "auto-tag setting x URI shape): the function is written once in TLA+, TLC enumerates its whole domain and decides on "
          "the samples the real guns reported; 'exactly one sample per request on every path' and 'ids unique under any "
          "interleaving' are a state machine checked exhaustively for 2 instances and validated on recorded traces of the "
-         "real guns (1 instance per case; 8 instances x 500 concurrent acquisitions).",
+         "real guns (1 instance per case; 8 instances x 500 concurrent acquisitions). Samples are pooled objects: 'no residue of "
+         "the previous use reaches the output' is an invariant of the Acquire/fill/Report/write/release machine (all interleavings "
+         "of 2 instances, the aggregator and 3 objects) and is validated on the phout files written by the real aggregator for "
+         "TLC-generated shot sequences (every kind followed by every kind) and for a pool run by the real engine with discarded shots.",
     note="net code is only decided as zero / non-zero (the statement's wording); failed scenario steps carry the extra tag "
          "__EMPTY__ after scenario.step (first tag compared); gRPC: untagged ammo and the proto code of unknown-method / "
          "ill-typed-payload shots are not fixed by the statement (only one-sample is checked there). Client timeout 150 ms is "
@@ -44,7 +55,7 @@ MANIFEST = dict(
 def _par(jobs):
     """run independent TLC jobs concurrently (each has its own metadir and config copy)."""
     vlib.spec_copy()
-    with concurrent.futures.ThreadPoolExecutor(max_workers=4) as ex:
+    with concurrent.futures.ThreadPoolExecutor(max_workers=8) as ex:
         futs = [ex.submit(vlib.tlc, *a, **k) for a, k in jobs]
         return [f.result() for f in futs]
 
@@ -141,6 +152,66 @@ def _finish(v, rows, tr, what):
     report(v, rows, tr, what)
 
 
+def _shot_sig(c):
+    if c.get("kind") == "discard":
+        return "discard"
+    return "http out=%s%s%s" % (c["out"]["kind"], "/%d" % c["out"]["status"] if c["out"].get("status") else "", " httptrace" if c.get("dump") else "")
+
+
+def pool_validate(v, path, what, timeout=900):
+    """TraceSamplePool on one pool log; every violation is reported with the object's previous use as evidence."""
+    rows = vlib.read_ndjson(path)
+    tr = vlib.tlc("TraceSamplePool", "TraceSamplePool.cfg", env={"VERIF_TRACE": path}, workers=4, cont=True, timeout=timeout, heap="4g")
+    if tr.error:
+        raise vlib.MachineryError("TraceSamplePool (%s) failed: %s\n%s" % (what, tr.kind, tr.out[-3000:]))
+    resets = sum(1 for r in rows if r["ev"] == "Reset")
+    if tr.distinct != len(rows) + resets:
+        raise vlib.MachineryError("TraceSamplePool (%s) visited %d states for %d lines + %d runs\n%s" % (what, tr.distinct, len(rows), resets, tr.out[-2000:]))
+    seen = set()
+    for inv, st in tr.all_violations:
+        try:
+            ln = int(st.get("l", "0"))
+        except ValueError:
+            ln = 0
+        if ln < 1 or (inv, ln) in seen:
+            continue
+        seen.add((inv, ln))
+        row = rows[ln - 1]
+        keep = len(seen) <= 20
+        if row["ev"] == "Shot":
+            prev = [r for r in rows[:ln - 1] if r["ev"] == "Shot" and r["obj"] == row["obj"]]
+            before = ("object #%d was last reported for a %s shot as %s" % (row["obj"], _shot_sig(prev[-1]["c"]), prev[-1]["s"])) if prev else \
+                     ("object #%d had not been reported before" % row["obj"])
+            v.violation("pool shot=%s inv=%s" % (_shot_sig(row["c"]), inv),
+                        "%s, run %d (GOMAXPROCS %s), instance %d, plan %d: the shot %s (ammo id %d) reported through the real phout aggregator "
+                        "carries %s - %s; rule %s of SamplePool.tla (LineOK) fails at log line %d" % (
+                            what, row["run"], [r for r in rows if r["ev"] == "Reset" and r["run"] == row["run"]][0].get("procs", "default"),
+                            row["inst"], row.get("plan", 0), json.dumps(row["c"], sort_keys=True), row["ammo"], row["s"], before, inv, ln),
+                        replay_obj={"kind": "pool", "invariant": inv, "events": [{"ev": "Reset", "run": row["run"]}] + prev[-1:] + [row]} if keep else None,
+                        replay_name="pool_l%d_%s.json" % (ln, inv))
+        else:
+            run_rows = [r for r in rows if r.get("run") == row.get("run")]
+            v.violation("pool %s inv=%s" % ("engine-run" if row["ev"] in ("ELine", "EEnd") else "file", inv),
+                        "%s, run %d: rule %s of TraceSamplePool fails at log line %d %s (reported samples %d, lines in the phout file %d)" % (
+                            what, row.get("run", 0), inv, ln, {k: row.get(k) for k in ("ev", "j", "s", "raw", "reports", "lines")},
+                            sum(1 for r in run_rows if r["ev"] == "Shot"), sum(1 for r in run_rows if r["ev"] == "Line")),
+                        replay_obj={"kind": "pool", "invariant": inv, "events": run_rows} if keep else None,
+                        replay_name="pool_l%d_%s.json" % (ln, inv))
+    shots = [r for r in rows if r["ev"] == "Shot"]
+    objs, recycled, dirty = set(), 0, 0
+    last = {}
+    for r in shots:
+        if r["obj"] in objs:
+            recycled += 1
+            p_ = last[r["obj"]]     # (by the KIND of the two shots, as planned - not by what was reported)
+            if (p_["kind"] == "discard" or p_["out"]["kind"] != "status") and r["c"]["kind"] == "http" and r["c"]["out"]["kind"] == "status":
+                dirty += 1          # the object of a failed / discarded shot came back for a shot that gets an answer
+        objs.add(r["obj"])
+        last[r["obj"]] = r["c"]
+    return rows, tr, dict(shots=len(shots), lines=sum(1 for r in rows if r["ev"] == "Line"), runs=resets, objects=len(objs),
+                          recycled=recycled, failed_object_reused_by_successful_shot=dirty)
+
+
 def run(tier, v):
     thorough = tier == "thorough"
     sfx = "_big" if thorough else ""
@@ -153,9 +224,32 @@ def run(tier, v):
     jobs = [(("SampleCodingMC", exh), dict(deadlock=False, workers=2, heap="4g", timeout=1200)),
             (("SampleCodingGen", "SampleCoding_gen%s.cfg" % sfx), dict(env={"VERIF_OUT": cases}, workers=1, heap="4g", timeout=1200, deadlock=False))]
     jobs += [(("SampleCodingMC", "SampleCoding_neg_%s.cfg" % n), dict(deadlock=False, workers=1, heap="2g", timeout=600)) for n in negs]
-    res = _par(jobs)
-    vlib.tlc_must_pass(res[0], exh)
-    states, trans = res[0].distinct, res[0].generated
+    # pool part: life-cycle machine (quick: 3 shots, thorough: 4), its negative controls, the plan generator
+    plans = os.path.join(d, "plans.ndjson")
+    pool_exh = "SamplePool_exh%s.cfg" % sfx
+    # quick: one negative control per mechanism (re-initialisation, release order); thorough: all, and the explanation run
+    pool_negs = ["keeps_net", "keeps_sizes", "release_early", "recycles"] if thorough else ["keeps_net", "release_early"]
+    njobs = len(jobs)
+    jobs += [(("SamplePoolMC", pool_exh), dict(deadlock=False, workers=4, heap="6g", timeout=1800)),
+             (("SamplePoolGen", "SamplePool_gen%s.cfg" % sfx), dict(env={"VERIF_OUT": plans}, workers=1, heap="2g", timeout=600, deadlock=False))]
+    jobs += [(("SamplePoolMC", "SamplePool_neg_%s.cfg" % n), dict(deadlock=False, workers=1, heap="2g", timeout=600)) for n in pool_negs]
+    if thorough:
+        jobs += [(("SamplePoolMC", "SamplePool_norelease.cfg"), dict(deadlock=False, workers=2, heap="4g", timeout=900))]
+    with concurrent.futures.ThreadPoolExecutor(max_workers=1) as bex:
+        fbuild = bex.submit(vlib.harness_build)        # the Go build runs next to the TLC jobs
+        res = _par(jobs)
+        b = fbuild.result()
+    pres = res[njobs:]
+    res = res[:njobs]
+    vlib.tlc_must_pass(pres[0], pool_exh)
+    if pres[1].error or pres[1].violation or not os.path.exists(plans):
+        raise vlib.MachineryError("plan generation failed: %s\n%s" % (pres[1].kind, pres[1].out[-3000:]))
+    for n, r in zip(pool_negs, pres[2:]):
+        vlib.tlc_must_fail(r, "SamplePool_neg_%s.cfg" % n)
+    if thorough:
+        # an aggregator that keeps the samples hides even the forgotten net code: the model says why only a releasing one binds
+        vlib.tlc_must_pass(pres[-1], "SamplePool_norelease.cfg")
+    states, trans = res[0].distinct + pres[0].distinct, res[0].generated + pres[0].generated
     g = res[1]
     if g.error or g.violation or not os.path.exists(cases):
         raise vlib.MachineryError("case generation failed: %s\n%s" % (g.kind, g.out[-3000:]))
@@ -163,12 +257,23 @@ def run(tier, v):
         vlib.tlc_must_fail(r, "SampleCoding_neg_%s.cfg" % n)
     gen = vlib.read_ndjson(cases)
     # 2. drivers
-    b = vlib.harness_build()
+    poole = os.path.join(d, "poole.ndjson")
+    eex = concurrent.futures.ThreadPoolExecutor(max_workers=1)
+    fengine = eex.submit(vlib.run_driver, b, ["samplepool", "-mode", "engine", "-out", poole], timeout=600)   # sleeps 3 s: next to the others
     obs = os.path.join(d, "obs.ndjson")
     ids = os.path.join(d, "ids.ndjson")
     vlib.run_driver(b, ["samplecoding", "-mode", "cases", "-cases", cases, "-out", obs], timeout=1800)
     n_inst, n_acq, rounds = (8, 1500, 2) if thorough else (8, 500, 1)
     vlib.run_driver(b, ["samplecoding", "-mode", "ids", "-out", ids, "-n", str(n_inst), "-r", str(n_acq), "-rounds", str(rounds)], timeout=1800)
+    # pool runs: (a) one P, one instance - what a shot releases is what the next one gets; (b) the machine's Ps, 4
+    # instances shooting concurrently into one phout aggregator
+    pool1 = os.path.join(d, "pool1.ndjson")
+    pool4 = os.path.join(d, "pool4.ndjson")
+    vlib.run_driver(b, ["samplepool", "-plans", plans, "-out", pool1, "-procs", "1", "-n", "1"], timeout=1800)
+    vlib.run_driver(b, ["samplepool", "-plans", plans, "-out", pool4, "-procs", "0", "-n", "4", "-repeat", "2" if not thorough else "1"], timeout=1800)
+    # (c) a whole pool run by the real engine from a YAML config: the first answer takes 2.3 s, the engine discards the
+    # overdue shots (discard_overflow, on by default), the following shots recycle their samples (3 s of wall, mostly asleep)
+    fengine.result()
     # bookkeeping (plain equality of abstract JSON values): the driver played exactly the generated cases
     orows = vlib.read_ndjson(obs)
     begun = {r["caseid"]: r["c"] for r in orows if r["ev"] == "Begin"}
@@ -176,10 +281,22 @@ def run(tier, v):
         raise vlib.MachineryError("driver did not play exactly the generated cases (%d of %d)" % (len(begun), len(gen)))
     # 3. TLC on both logs, concurrently
     cfg = "TraceSampleCoding%s.cfg" % sfx
-    with concurrent.futures.ThreadPoolExecutor(max_workers=2) as ex:
+    with concurrent.futures.ThreadPoolExecutor(max_workers=4) as ex:
         f1 = ex.submit(validate, v, obs, cfg, "cases")
         f2 = ex.submit(validate, v, ids, "TraceSampleCodingIds%s.cfg" % sfx, "ids")  # own cfg name: runs concurrently
+        f3 = ex.submit(pool_validate, v, pool1, "pool run, one instance on one P")
+        f4 = ex.submit(pool_validate, v, pool4, "pool run, 4 concurrent instances")
         (rows1, tr1), (rows2, tr2) = f1.result(), f2.result()
+        (prow1, ptr1, pcov1), (prow4, ptr4, pcov4) = f3.result(), f4.result()
+    prowe, ptre, _ = pool_validate(v, poole, "pool run by the real engine, discard_overflow")
+    elines = [r for r in prowe if r["ev"] == "ELine"]
+    ecov = dict(lines=len(elines), discarded=sum(1 for r in elines if r["s"]["tags"] == ["discarded"]),
+                fired_after_a_discard=sum(1 for i, r in enumerate(elines) if r["s"]["tags"] != ["discarded"] and
+                                          any(q["s"]["tags"] == ["discarded"] for q in elines[:i])))
+    nplans = len(vlib.read_ndjson(plans))
+    if pcov1["recycled"] == 0 or pcov1["failed_object_reused_by_successful_shot"] == 0:
+        # nothing was recycled: the run would not have exercised what it is for (machinery, not a verdict)
+        raise vlib.MachineryError("pool run on one P recycled no sample object (%s)" % pcov1)
     _finish(v, rows1, tr1, "cases")
     _finish(v, rows2, tr2, "ids")
     kinds = {}
@@ -200,11 +317,16 @@ def run(tier, v):
                                                                for e in rows1[i:j + 1] if e["ev"] == "Report"],
                                 "target_saw": rows1[j].get("seen")})
                 break
+    samples.append({"pool_run": [r for r in prow1 if r["ev"] in ("Shot", "Line")][:4] + [r for r in prow1 if r["ev"] == "Line"][:2]})
     samples.append({"ids_run": [r for r in rows2 if r["ev"] in ("Reset", "RunEnd")],
                     "first_events": [{k: e.get(k) for k in ("seq", "ev", "inst", "id", "tags", "proto", "net")} for e in rows2[1:7]]})
     cov = {
         "states": states, "transitions": trans,
-        "traces_validated_against_impl": len(begun) + shots2,
+        "traces_validated_against_impl": len(begun) + shots2 + pcov1["runs"] + pcov4["runs"] + 1,
+        "pool_design_tlc": "%s: %d states" % (pool_exh, pres[0].distinct),
+        "pool_plans": nplans, "pool_run_one_instance": pcov1, "pool_run_concurrent": pcov4, "pool_run_engine": ecov,
+        "pool_trace_states": ptr1.distinct + ptr4.distinct + ptre.distinct,
+        "pool_negative_controls": pool_negs,
         "samples": samples,
         "exhaustive": True,
         "evaluations": len(gen),
@@ -231,13 +353,23 @@ def run(tier, v):
         "cancelled scenario shots: the executed steps must be a prefix with one sample each (today's guns ignore the cancellation "
         "and finish the shot); the moment the cancel lands is not asserted",
         "timeout case uses response-header-timeout 150 ms against a target that never answers (one-sided: no upper bound asserted)",
-        "trusted: harness recorder (harness/cmd/vdrive/samplecoding.go, httpwire_common.go, harness/internal/targets)",
+        "pool runs: the sample pool is sync.Pool (per-P caches, emptied by the garbage collector): which object a shot gets "
+        "is up to the runtime; the run on one P recycles deterministically enough (a machinery failure is raised if nothing was "
+        "recycled), the concurrent run takes what it gets; a discarded shot is rendered as the engine does it "
+        "(aggregator.Report(netsample.DiscardedShootSample())); its line is only required to carry the tag `discarded`",
+        "phout columns: size / timing columns must be 0 for a gun without httptrace (nothing else is demanded of them)",
+        "trusted: harness recorder (harness/cmd/vdrive/samplecoding.go, samplepool.go, httpwire_common.go, harness/internal/targets)",
     ]
 
 
 def replay(path, v):
     obj = json.load(open(path))
     d = vlib.scratch()
+    if obj.get("kind") == "pool":
+        p_ = os.path.join(d, "pool.ndjson")
+        vlib.write_ndjson(p_, obj["events"])
+        pool_validate(v, p_, "replay")
+        return None
     if obj.get("kind") == "cases" and obj.get("case"):
         b = vlib.harness_build()
         cases = os.path.join(d, "cases.ndjson")
